@@ -1,0 +1,19 @@
+//go:build verif
+
+package operator
+
+import "reduction.dev/reduction/partitioning"
+
+// VerifKeyLayout reports what the deployed operator believes about key ownership (build tag verif only):
+// its own key group range, the ranges of all operators, and the key group it computes for a key together
+// with the group under which its state store would persist that key.
+func (o *Operator) VerifKeyLayout(key []byte) (own partitioning.KeyGroupRange, all []partitioning.KeyGroupRange, routedGroup int, storedGroup int) {
+	o.mu.RLock()
+	defer o.mu.RUnlock()
+	own = o.keyGroupRange
+	all = o.keySpace.KeyGroupRanges()
+	routedGroup = int(o.keySpace.KeyGroup(key))
+	sk := o.stateStore.encodeSubjectKey(key)
+	storedGroup = int(partitioning.KeyGroupFromBytes(sk[:2]))
+	return
+}
